@@ -238,7 +238,7 @@ def oracle_fourier_op(c, o):
     return oracle_adjoint(dict(c, cls='FourierOp'), o)
 
 
-TOL['FourierOp'] = 1e-9   # the Kaiser-Bessel interpolation pair of torchkbnufft is an exact adjoint pair (measured 3e-15)
+TOL['FourierOp'] = 1e-6   # torchkbnufft's interpolation pair is an exact adjoint pair up to rounding (measured 3e-15 .. 3e-9); a wrong kernel gives >= 4e-4
 
 FAMILIES = [
     Family('fourier_op_adjoint', gen_fourier_ops, impl_fourier_op, None, '', None, oracle_fourier_op,
